@@ -113,12 +113,12 @@ def one(ctx, i):
     ctx.count('end_time' if cfg.get('end_time') is not None else 'default-horizon')
     if cfg.get('start_time'):
         ctx.count('start_time')
-    compare(ctx, cfg, coal, pg, model_horizon(cfg, T), 45 if quick else 120, rng)
+    compare(ctx, cfg, coal, pg, model_horizon(cfg, T), 45 if quick else 96, rng)
 
 
 def run(ctx):
     import check
-    n = 128 if ctx.quick else 400
+    n = 128 if ctx.quick else 240
     check.pmap(ctx, 'props.c01', 'one', list(range(n)), case_timeout=150 if ctx.quick else 1200)
 
 
